@@ -41,6 +41,7 @@ type Ctx struct {
 	parents map[ast.Node]ast.Node // lazily built per file
 
 	NameNotes []string // renames applied by the name normalisation (canon.go)
+	LoadDir   string   // directory the packages were loaded from when it is a scratch copy of Dir
 
 	reachCache map[string]map[*ssa.Function]bool
 	cens       *census
@@ -280,6 +281,10 @@ func (c *Ctx) pos(p token.Pos) string {
 	}
 	pp := c.Fset.Position(p)
 	rel, err := filepath.Rel(c.Dir, pp.Filename)
+	if (err != nil || strings.HasPrefix(rel, "..")) && c.LoadDir != "" {
+		// a file of the alpha-renamed scratch copy that needed no rewriting: same relative path
+		rel, err = filepath.Rel(c.LoadDir, pp.Filename)
+	}
 	if err != nil || strings.HasPrefix(rel, "..") {
 		rel = pp.Filename
 	}
